@@ -172,6 +172,27 @@ class Facts:
         if self.preds:
             self.preds = {(t, p) for (t, p) in self.preds if not mentions(t, path)}
 
+    def shift_range(self, name: str, lo: int, hi: int) -> None:
+        """name += c for some lo <= c <= hi (`pos += 2 if escaped else 1`)"""
+        if lo == hi:
+            self.shift(name, lo)
+            return
+        self.close()
+        nd = {}
+        for (a, b), k in self.d.items():
+            ma, mb = mentions(a, name), mentions(b, name)
+            if a == name and not mb:
+                nd[(a, b)] = k + hi
+            elif b == name and not ma:
+                nd[(a, b)] = k - lo
+            elif ma or mb:
+                continue
+            else:
+                nd[(a, b)] = k
+        self.d = nd
+        self.ne = {(a, b, cc) for (a, b, cc) in self.ne if not mentions(a, name) and not mentions(b, name)}
+        self.preds = {(t, p) for (t, p) in self.preds if not mentions(t, name)}
+
     def shift(self, name: str, c: int) -> None:
         """name += c"""
         self.close()
@@ -274,6 +295,17 @@ def _add_cmp(z: Facts, left: ast.AST, op: ast.cmpop, right: ast.AST, pos: bool) 
         if a != b:
             z.ne.add((a, b, cb - ca))
             z._closed = False
+
+
+def _const_alts(e: ast.AST) -> list[int] | None:
+    """The integer constants a (nested) conditional expression can evaluate to."""
+    if isinstance(e, ast.IfExp):
+        a, b = _const_alts(e.body), _const_alts(e.orelse)
+        return None if a is None or b is None else a + b
+    l = lin(e)
+    if l is not None and l[0] is None:
+        return [l[1]]
+    return None
 
 
 def _ifexp_alts(value: ast.AST, z: "Facts") -> list[ast.AST] | None:
@@ -530,6 +562,13 @@ class FactsProblem(Problem):
             if isinstance(s.target, (ast.Name, ast.Attribute)) and kp == U(s.target) and r is not None and r[0] is None \
                     and isinstance(s.op, (ast.Add, ast.Sub)):
                 z.shift(kp, r[1] if isinstance(s.op, ast.Add) else -r[1])
+            elif isinstance(s.target, (ast.Name, ast.Attribute)) and kp == U(s.target) and isinstance(s.op, (ast.Add, ast.Sub)) \
+                    and isinstance(s.value, ast.IfExp) and (cs_ := _const_alts(s.value)) is not None:
+                # x += 2 if c else 1: a step between the smallest and the largest alternative
+                lo_, hi_ = min(cs_), max(cs_)
+                if isinstance(s.op, ast.Sub):
+                    lo_, hi_ = -hi_, -lo_
+                z.shift_range(kp, lo_, hi_)
             elif kp:
                 z.kill(kp)
             return
@@ -723,6 +762,22 @@ class FactsProblem(Problem):
                     if kp and not (cf_ is not None and kp == cf_[0]):
                         z.kill(kp)
                 self._range_facts(z, a)
+                if self.result_bounds is not None and isinstance(a.target, ast.Name):
+                    # `for i in reversed(marks)`: an element of the list is bounded like a value popped from it
+                    it_ = a.iter
+                    while True:
+                        if isinstance(it_, ast.Call) and isinstance(it_.func, ast.Name) and it_.func.id in ("reversed", "list", "sorted", "tuple", "iter") \
+                                and len(it_.args) == 1 and not it_.keywords:
+                            it_ = it_.args[0]
+                        elif isinstance(it_, ast.Subscript) and isinstance(it_.slice, ast.Slice):
+                            it_ = it_.value
+                        else:
+                            break
+                    if isinstance(it_, ast.Name):
+                        fake = ast.Call(func=ast.Attribute(value=it_, attr="pop", ctx=ast.Load()), args=[], keywords=[])
+                        for (b_, k_) in self.result_bounds(fake, z):
+                            if not mentions(b_, a.target.id):
+                                z.add(a.target.id, b_, k_)
             elif label == "done" and self._counted_for(n) is not None:
                 # the state tracks the value the variable would take in the *next* iteration; when the range is exhausted the
                 # variable holds the previous value (tracked - 1), or - no iteration at all - what it held before the loop
